@@ -2,6 +2,7 @@ package main
 
 import (
 	"fmt"
+	"strings"
 	"go/ast"
 	"go/token"
 	"go/types"
@@ -418,28 +419,44 @@ func ruleSkipShape(c *Ctx) {
 	if !found {
 		c.ob(rule, "schema-expander:skip-branch", token.NoPos, false, "no schema expander has a branch taken under SkipSchemas")
 	}
-	// (2) ExpandSpec: only the definitions loop depends on the flag
+	// (2) ExpandSpec: only the expansion of the definitions depends on the flag
 	if fd := c.decl(c.funcObj("ExpandSpec")); fd != nil {
 		c.saw(c.funcName(fd))
 		oc := c.newOriginCtx(fd)
 		spec := c.paramObj(fd, 0)
-		for _, call := range c.familyCalls(fam, fd) {
-			g := c.callee(call).(*types.Func)
-			_, neg := skipLit(fd, call)
-			pos, _ := skipLit(fd, call)
-			isDefs := false
-			if len(call.Args) > 0 {
-				for _, o := range oc.origins(call.Args[0], 0) {
-					if o.root == spec && len(o.steps) >= 2 && o.steps[len(o.steps)-2] == "Definitions" {
-						isDefs = true
-					}
+		nDefs := 0
+		ast.Inspect(fd.Body, func(n ast.Node) bool {
+			call, ok := n.(*ast.CallExpr)
+			if !ok {
+				return true
+			}
+			cov := c.callCoverage(fam, fd, oc, spec, "Swagger", call, 0)
+			if len(cov) == 0 {
+				return true
+			}
+			g, _ := c.callee(call).(*types.Func)
+			defs, others := 0, 0
+			for p := range cov {
+				if strings.Contains(p, "Definitions") {
+					defs++
+				} else {
+					others++
 				}
 			}
-			if isDefs {
+			pos, neg := skipLit(fd, call)
+			switch {
+			case defs > 0 && others == 0:
+				nDefs++
 				c.ob(rule, "ExpandSpec:definitions-skipped", call.Pos(), neg, "the definitions section must be expanded only when SkipSchemas is off")
-			} else {
+			case defs == 0:
 				c.ob(rule, "ExpandSpec:"+funcDisplay(g)+"-unconditional", call.Pos(), !neg && !pos, "parameters, responses and path items must be expanded whatever SkipSchemas says")
+			default:
+				c.ob(rule, "ExpandSpec:"+funcDisplay(g)+"-mixed", call.Pos(), false, "one call expands both the definitions and other sections: the SkipSchemas guard cannot apply to the definitions alone")
 			}
+			return true
+		})
+		if nDefs == 0 {
+			c.ob(rule, "ExpandSpec:definitions-skipped", fd.Pos(), false, "cannot find where the definitions are expanded")
 		}
 	} else {
 		c.undecided(rule, "ExpandSpec", token.NoPos, "ExpandSpec not found")
